@@ -129,6 +129,9 @@ def generate(rng, tier):
         cases.append({"prog": p, "attrs": [[0, 1]]})
         cases.append({"prog": p, "attrs": []})
         cases.append({"prog": p, "attrs": [[0, 0], [1, 0]]})
+    # force_failure set in setUp / in a cleanup, setUp ending in every behaviour (fix 889980a): both runs
+    for k, (p, _) in enumerate(R.setup_force_programs()):
+        cases.append({"prog": p, "attrs": []})
     combos = list(itertools.product(list(R.BEHAVIOURS), repeat=4))
     stride = 1 if tier == "thorough" else 16
     off = rng.randrange(stride)
